@@ -171,6 +171,7 @@ type Options struct {
 	GoNames      bool // names that stress the Go generator (fmt, errors, ...)
 	ConstRefs    bool // constants and defaults may refer to other constants / enum items
 	Dotted       bool // local definitions with dotted names
+	CapsWords    bool // one ALL-CAPS word as enum item / constant here and as function, field or type name there
 	Invalid      bool // inject one unresolvable or ill-typed reference (compile must fail)
 	NoServices   bool
 	StructConsts bool     // constants (and defaults) of struct type written as map literals
@@ -323,6 +324,9 @@ func Gen(o Options) *Program {
 	}
 	if o.Dotted && simrt.Flip("prog.dotted", 0.25) {
 		p.addDotted(o)
+	}
+	if o.CapsWords && simrt.Flip("prog.caps-words", 0.15) {
+		p.addCapsWords()
 	}
 	if o.Invalid && simrt.Flip("prog.invalid", 0.15) {
 		p.injectInvalid()
@@ -700,6 +704,35 @@ func (p *Program) addEnumStructConst(o Options) {
 // addDotted adds a local typedef whose name looks include-qualified
 // ("<include>.<Name>") and a struct field referring to it. Thrift scoping looks
 // a full name up locally before splitting it at the first dot.
+// addCapsWords uses one upper-case word in two roles: as an enum item or constant (a Go name
+// is made from it one way) and as a function, field or type name (another way), possibly in
+// different files.
+func (p *Program) addCapsWords() {
+	words := []string{"FETCH", "STORE", "OK", "ACK", "PING"}
+	rot := ch("caps.words", len(words))
+	w1, w2 := words[rot], words[(rot+1)%len(words)]
+	fa := p.Files[ch("caps.item-file", len(p.Files))]
+	fb := p.Files[ch("caps.user-file", len(p.Files))]
+	asConst := ch("caps.as-constant", 2) == 1
+	if asConst {
+		p.add(fa, &Def{Kind: KConst, Name: w1, Type: &TypeRef{Base: "i32"}, Value: &ConstVal{Kind: CInt, Int: 7}})
+	} else {
+		p.add(fa, &Def{Kind: KEnum, Name: p.name("Eop"), Items: []EnumItem{{Name: w1, Value: 0}, {Name: w2, Value: 1}}})
+	}
+	user := ch("caps.user", 3)
+	if user == 2 && asConst && fa == fb {
+		user = 1 // a type and a constant of one name in one file: not wanted here
+	}
+	switch user {
+	case 0:
+		p.add(fb, &Def{Kind: KService, Name: p.name("Cache"), Funcs: []*Func{{Name: w1}, {Name: w2, Args: []*FieldDef{{ID: 1, Name: w1, Req: ReqOptional, Type: &TypeRef{Base: "i32"}}}}}})
+	case 1:
+		p.add(fb, &Def{Kind: KStruct, Name: p.name("S"), Fields: []*FieldDef{{ID: 1, Name: w1, Req: ReqOptional, Type: &TypeRef{Base: "i32"}}, {ID: 2, Name: w2, Req: ReqOptional, Type: &TypeRef{Base: "string"}}}})
+	default:
+		p.add(fb, &Def{Kind: KStruct, Name: w1, Fields: []*FieldDef{{ID: 1, Name: "v", Req: ReqOptional, Type: &TypeRef{Base: "i32"}}}})
+	}
+}
+
 func (p *Program) addDotted(o Options) {
 	var cands []*File
 	for _, f := range p.Files {
@@ -841,7 +874,18 @@ func (p *Program) injectInvalid() {
 		if ch("invalid.enum-ref-kind", 2) == 0 {
 			// an enum item qualified with a typedef of the enum: `typedef E T; const T c = T.ITEM`
 			td := p.add(f, &Def{Kind: KTypedef, Name: p.name("Te"), Type: &TypeRef{Ref: &Ref{e.File, e.Name}}})
-			p.add(f, &Def{Kind: KConst, Name: p.name("C"), Type: &TypeRef{Ref: &Ref{td.File, td.Name}}, Value: &ConstVal{Kind: CRef, Ref: &Ref{td.File, td.Name}, Item: it.Name}})
+			bad := &ConstVal{Kind: CRef, Ref: &Ref{td.File, td.Name}, Item: it.Name}
+			if ch("invalid.ref-site", 2) == 0 {
+				p.add(f, &Def{Kind: KConst, Name: p.name("C"), Type: &TypeRef{Ref: &Ref{td.File, td.Name}}, Value: bad})
+			} else {
+				// ... or as the default of a field, which is resolved while the types are linked
+				// (declared as the typedef, or as a plain i32 so that nothing else names the typedef)
+				ft := &TypeRef{Ref: &Ref{td.File, td.Name}}
+				if ch("invalid.ref-field-type", 2) == 1 {
+					ft = &TypeRef{Base: "i32"}
+				}
+				p.add(f, &Def{Kind: KStruct, Name: p.name("S"), Fields: []*FieldDef{{ID: 1, Name: "tone", Req: ReqOptional, Type: ft, Default: bad}}})
+			}
 			p.Invalid = "enum item qualified with a typedef name in " + f.RelPath()
 		} else {
 			// an item of one enum where another enum is declared
